@@ -215,6 +215,8 @@ def c01_3(ctx: Ctx) -> RuleResult:
             res.add(f, c, "the filter's weights are stored into the objective and the constraint weight matrices", False,
                     f"{len(stores)} store(s) of the filter result found", construct=f"{f.name}: filter stores")
             continue
+        if lp is not None:
+            _filter_loop_clauses(ctx, res, f, c, lp, stores)
         for st in stores:
             tgt = ast.unparse(st.targets[0].value)
             it = X.at(f, st.targets[0].slice)
@@ -232,6 +234,97 @@ def c01_3(ctx: Ctx) -> RuleResult:
                     construct=f"{f.name}: rows of {tgt}")
     res.floor = 8
     return res
+
+
+def _filter_loop_clauses(ctx: Ctx, res: RuleResult, f, c, lp, stores) -> None:
+    """Two clauses about the loop that hands every filter's weights to the rows mapped to it:
+    (a) filter k is consulted whenever some row of some matrix is mapped to k - the condition under
+        which the call executes is implied by `mask is not None and any(mask)` for the row mask of every store;
+    (b) the matrices accumulate over the filters - a matrix that receives rows is (re)created inside the
+        loop only while it is still None."""
+    from ..util import bool_nnf, path_condition
+
+    X = ctx.X
+    # (a) the condition under which get_realization_weights runs in an iteration
+    pc = []
+    for t, pol in path_condition(ctx, f, c):
+        pc.append(t if pol else ("unary", "not", t))
+    conj = []
+    for t in pc:
+        g = bool_nnf(t)
+        conj.extend(g[1] if g[0] == "and" else [g])
+
+    def lit_about(lit, m) -> bool:
+        if lit[0] != "lit":
+            return False
+        a, pol = lit[1], lit[2]
+        if a[0] == "cmp" and a[1] in ("is", "is not") and ("const", None) in (a[2], a[3]):
+            other = a[3] if a[2] == ("const", None) else a[2]
+            return norm(other) == m and (pol == (a[1] == "is not"))
+        if a[0] == "call" and a[1] in (("global", "numpy.any"), ("builtin", "any")) and a[2] and norm(a[2][0]) == m:
+            return pol
+        if a[0] == "call" and a[1][0] == "attr" and a[1][2] == "any" and norm(a[1][1]) == m:
+            return pol
+        return False
+
+    for st in stores:
+        tgt = ast.unparse(st.targets[0].value)
+        it = X.at(f, st.targets[0].slice)
+        m = norm(it[1][0] if it[0] == "tuple" else it)
+        bad = None
+        for k in conj:
+            disj = k[1] if k[0] == "or" else [k]
+            sat = False
+            for d in disj:
+                lits = d[1] if d[0] == "and" else [d]
+                if lits and all(lit_about(x, m) for x in lits):
+                    sat = True
+                    break
+            if not sat:
+                bad = k
+                break
+        ok = bad is None
+        res.add(f, c, f"the filter is consulted whenever a row of `{tgt}` is mapped to it (it is skipped only when the row mask is None or empty)", ok,
+                "" if ok else f"the filter is skipped under a condition that does not depend on the rows of `{tgt}` mapped to it: these rows keep the configured weights",
+                construct=f"{f.name}: rows of {tgt}: skip condition")
+    # (b) accumulation
+    def guarded_by_none(n: ast.AST, name: str) -> bool:
+        def is_none_test(t, want_none: bool) -> bool:
+            if isinstance(t, ast.BoolOp) and isinstance(t.op, ast.And) and want_none:
+                return any(is_none_test(v, True) for v in t.values)
+            if isinstance(t, ast.UnaryOp) and isinstance(t.op, ast.Not):
+                return is_none_test(t.operand, not want_none)
+            return (isinstance(t, ast.Compare) and len(t.ops) == 1 and isinstance(t.left, ast.Name) and t.left.id == name
+                    and isinstance(t.comparators[0], ast.Constant) and t.comparators[0].value is None
+                    and isinstance(t.ops[0], ast.Is if want_none else ast.IsNot))
+        child, cur = n, parent(n)
+        while cur is not None and cur is not lp:
+            if isinstance(cur, ast.If):
+                if any(child is s for s in cur.body) and is_none_test(cur.test, True):
+                    return True
+                if any(child is s for s in cur.orelse) and is_none_test(cur.test, False):
+                    return True
+            child, cur = cur, parent(cur)
+        v = n.value
+        if isinstance(v, ast.IfExp):
+            keep_body = isinstance(v.body, ast.Name) and v.body.id == name
+            keep_else = isinstance(v.orelse, ast.Name) and v.orelse.id == name
+            if keep_else and is_none_test(v.test, True) or keep_body and is_none_test(v.test, False):
+                return True
+        return False
+
+    for st in stores:
+        base = st.targets[0].value
+        if not isinstance(base, ast.Name):
+            continue
+        for n in ast.walk(lp):
+            if isinstance(n, (ast.Assign, ast.AnnAssign)) and n.value is not None:
+                tg = n.targets if isinstance(n, ast.Assign) else [n.target]
+                if any(isinstance(t_, ast.Name) and t_.id == base.id for t_ in tg):
+                    ok = guarded_by_none(n, base.id)
+                    res.add(f, n, f"`{base.id}` is created inside the filter loop only while it is still None (rows written for earlier filters are kept)", ok,
+                            "" if ok else f"`{norm_stmt(n)[:70]}` re-creates `{base.id}` for every filter: the rows written for lower-indexed filters are lost",
+                            construct=f"{f.name}: rows of {base.id}: accumulation")
 
 
 # --------------------------------------------------------------------- C01.4
